@@ -38,8 +38,12 @@ POST = ['\n', '', '\n\\label{k}\n', ' % c', '\n\n', '\\xxx']
 WS = ' \t\n'
 # words inside the kept argument of a macro / a group, with white space next to the delimiters
 WRAPS = [('\\textcolor{red}{', '}'), ('\\LTadd{', '}'), ('\\framebox[w][c]{', '}'), ('\\mq{', '}'), ('\\xxx{', '}'), ('{', '}'),
-         ('\\begin{uenv}', '\\end{uenv}'), ('\\footnote{', '}')]
-WRAP_WS = ['', ' ', '\n', '\n  ', ' \n']
+         ('\\begin{uenv}', '\\end{uenv}'), ('\\footnote{', '}'),
+         # (the unstarred otherlanguage environment skips space behind its end, as babel does: not generated)
+         ('\\begin{otherlanguage*}{german}', '\\end{otherlanguage*}'),
+         ('\\foreignlanguage{german}{', '}'), ('\\mt{', '}')]
+# white space next to the delimiters; the last two also hold vanishing markup (a markup-only line; a control word in front of the closing delimiter)
+WRAP_WS = ['', ' ', '\n', '\n  ', ' \n', '\\index{k}\n', '\\xxx']
 
 
 def relation(gap):
@@ -78,7 +82,8 @@ def build(case):
     if case[0] == 'wrap':
         _, wi, a, b, c, d = case
         o, cl = WRAPS[wi]
-        return ('\\newcommand{\\mq}[1]{#1}\n' if 'mq' in o else '') + 'Waaq' + WRAP_WS[a] + o + WRAP_WS[b] + 'Wabq' + WRAP_WS[c] + cl + WRAP_WS[d] + 'Wacq\n'
+        pre = '\\newcommand{\\mq}[1]{#1}\n' if 'mq' in o else '\\newcommand{\\mt}[1]{#1#1}\n' if 'mt' in o else '\\usepackage{babel}\n' if 'language' in o else ''
+        return pre + 'Waaq' + WRAP_WS[a] + o + WRAP_WS[b] + 'Wabq' + WRAP_WS[c] + cl + WRAP_WS[d] + 'Wacq\n'
     pre, gaps, post = case
     words = ['Waaq', 'Wabq', 'Wacq']
     s = PRE[pre] + words[0]
@@ -118,6 +123,11 @@ class C05:
                 for b in range(n):
                     for c in range(n):
                         for d in range(n):
+                            # a control word glued to a following word or letter would be a different control word
+                            if (WRAP_WS[a].endswith('xxx') and WRAPS[wi][0][0].isalpha()) or WRAP_WS[b].endswith('xxx') or WRAP_WS[d].endswith('xxx'):
+                                continue
+                            if WRAP_WS[c].endswith('xxx') and WRAPS[wi][1][0].isalpha():
+                                continue
                             yield ['wrap', wi, a, b, c, d]
 
     def all_cases(self, tier):
@@ -148,9 +158,24 @@ class C05:
         plain = o.result[0]
         viol = []
         foot = 'footnote' in WRAPS[wi][0]
-        pairs = [('Waaq', 'Wacq', WRAP_WS[a] + WRAP_WS[d])] if foot else [('Waaq', 'Wabq', WRAP_WS[a] + WRAP_WS[b]), ('Wabq', 'Wacq', WRAP_WS[c] + WRAP_WS[d])]
+        twice = 'mt{' in WRAPS[wi][0]
+
+        def counts(x):
+            # does this piece hold white space that counts?  (blanks behind a control word do not)
+            return bool(re.search(r'[ \t\n]', x.replace('\\xxx ', '').replace('\\xxx\n', '')))
+        wsa, wsb, wsc, wsd = (WRAP_WS[k] for k in (a, b, c, d))
+        pairs = [('Waaq', 'Wacq', counts(wsa) or counts(wsd))] if foot else \
+            [('Waaq', 'Wabq', counts(wsa) or counts(wsb)), ('Wabq', 'Wacq', counts(wsc) or counts(wsd))]
+        if twice:
+            pairs.insert(1, ('Wabq', 'Wabq', counts(wsc) or counts(wsb)))
+        start = 0
         for w1, w2, ws in pairs:
-            i, j = plain.find(w1), plain.find(w2)
+            i = plain.find(w1, start)
+            j = plain.find(w2, i + 4) if i >= 0 else -1
+            start = j if w1 == w2 and j >= 0 else 0
+            if w1 != w2 and twice and w1 == 'Wabq':
+                i = plain.rfind(w1)
+                j = plain.find(w2, i + 4)
             if i < 0 or j < i:
                 viol.append({'clause': 'both words survive in order', 'sig': 'C05:wrap:word-lost', 'detail': {'source': src, 'plain': plain}})
                 break
@@ -162,7 +187,7 @@ class C05:
                 viol.append({'clause': 'no paragraph break invented (delimiter of a kept argument alone on its line)',
                              'sig': 'C05:wrap:par-invented:' + tag, 'detail': {'source': src, 'plain': plain, 'between': between}})
             elif ws and between == '':
-                viol.append({'clause': 'words separated by white space that counts stay separated', 'sig': 'C05:wrap:glued:' + tag,
+                viol.append({'clause': 'words separated by white space that counts stay separated', 'sig': 'C05:wrap:glued:' + tag + (':ctrl' if 'xxx' in wsc else ''),
                              'detail': {'source': src, 'plain': plain}})
         return {'viol': viol, 'out': plain, 'nt': True, 'tr': 1, 'cnt': {'evaluations': len(pairs)}}
 
